@@ -71,16 +71,20 @@ structure VagRes where
   aux : Option (List Int)
   grads : List Int
 
+/-- `wrapper(*args)` of `lift.value_and_grad`: no variable argument, every lifted group is closed over -/
+def vagClosure (attrs : List (String × Int)) (f : Fn) (hasAux : Bool) (nY : Nat) (pe : PackEnv) (ctr : Counters) :
+    DIn → Except Err (DOut × DAux) :=
+  fun x =>
+    match runInner attrs f x.2 .tt pe pe.varGroups pe.rngGroups ctr with
+    | .error e => .error e
+    | .ok (y, out, ctr') => .ok ((splitAux hasAux nY y.vals).1, (splitAux hasAux nY y.vals).2, out, ctr')
+
 /-- `lift.value_and_grad(fn, scope, *primals, has_aux, variables, rngs)`: every variable group is closed over;
 `inputs_grad = bwd(ones_like(y))` -/
 def liftValueAndGrad (ad : AD) (varF rngF : LFilter) (hasAux : Bool) (nY : Nat) (attrs : List (String × Int)) (f : Fn)
     (args : List Int) (s : ScopeSt) : Except Err (VagRes × ScopeSt) :=
   pack [varF] [varF] [rngF] (fun pe ctr =>
-    match ad.vjp (fun x =>
-        match runInner attrs f x.2 .tt pe pe.varGroups pe.rngGroups ctr with
-        | .error e => .error e
-        | .ok (y, out, ctr') => .ok ((splitAux hasAux nY y.vals).1, (splitAux hasAux nY y.vals).2, out, ctr'))
-      ([], args) with
+    match ad.vjp (vagClosure attrs f hasAux nY pe ctr) ([], args) with
     | .error e => .error e
     | .ok (y, bwd, (aux, out, ctr')) =>
       .ok (⟨y, if hasAux then some aux else none, (bwd (y.map (fun _ => 1))).2⟩, out, ctr')) s
